@@ -248,7 +248,7 @@ def _collide(n1, n2):
 
 
 def gen_quoted():
-    nm = st.one_of(names(), names(), st.sampled_from(["a b", "a+b", "a", "ab", "a b c", "x", "max", "a'b", 'q"r', "a\\b", "end\\", "1z", "a:b", "é", "I", "zz "]))
+    nm = st.one_of(names(), names(), st.sampled_from(["a b", "a+b", "a", "ab", "a b c", "x", "max", "a'b", 'q"r', "a\\b", "end\\", "1z", "a:b", "é", "I", "zz ", "l1\r\nl2", "t\tb", "cr\rx"]))
     return st.builds(lambda a, b, f: {"n1": a, "n2": b, "form": f}, nm, nm, st.sampled_from(["plain", "plain", "I", "brace-sum", "call2", "mixed"])).filter(
         lambda c: c["n1"] != "zz" and c["n2"] != "zz" and (c["form"] == "plain" or c["n1"] != c["n2"])
     )
@@ -331,6 +331,13 @@ def gen_verbatim():
     return st.one_of(
         st.builds(lambda e, k: {"src": e[0], "form": "brace", "seed": k, "hasname": bool(e[1])}, P.pyexpr(allow_braces=False), st.integers(0, 10**6)),
         st.builds(lambda e, k: {"src": e[0], "form": "call", "seed": k, "hasname": True}, P.pyexpr(allow_braces=True), st.integers(0, 10**6)),
+        # plain calls over bare words and numbers, written with canonical spacing, whose literals are not in canonical
+        # form (0x10, 1_000, 1e3, 0b11, 00.5): still normalised, like every other spelling of the same call
+        st.builds(
+            lambda args, k: {"src": ", ".join(args), "form": "call", "seed": k, "hasname": True},
+            st.lists(st.sampled_from(["a", "b", "x1", "0x10", "1_000", "1e3", "0b11", "2", "0o7", "1E2"]), min_size=1, max_size=3).filter(lambda a: any(x[0].isalpha() for x in a)),
+            st.integers(0, 10**6),
+        ),
     )
 
 
@@ -374,6 +381,28 @@ def check_spans(case) -> Outcome:
                 out.fail("span-delimits-text", f"{s!r}: token {t.token!r} ({t.kind.value}) span text {raw!r}")
         if t.source != s:
             out.fail("span-source", f"{s!r}: token source {t.source!r}")
+    # the same through the default parser (which may add tokens of its own, without a source): spans still index
+    # the caller's string
+    from formulaic.parser import DefaultFormulaParser
+
+    try:
+        ptoks = list(DefaultFormulaParser(include_intercept=False).get_tokens(s))
+    except (FormulaParsingError, SyntaxError):
+        ptoks = []
+    for t in ptoks:
+        if t.source is None or t.source_start is None or t.source_end is None:
+            continue
+        a, b = t.source_start, t.source_end
+        if t.source != s:
+            out.fail("parser-span-source", f"{s!r}: token {t.token!r} refers to another string {t.source!r}")
+            break
+        raw = s[a : b + 1]
+        if t.kind.value == "name" and raw[:1] == "`" and raw[1:] != t.token:
+            out.fail("parser-span-text", f"{s!r}: token {t.token!r} span {(a, b)} text {raw!r}")
+            break
+        if t.kind.value in ("name", "value") and raw[:1] not in "`{" and "".join(raw.split()) != "".join(t.token.split()):
+            out.fail("parser-span-text", f"{s!r}: token {t.token!r} span {(a, b)} text {raw!r}")
+            break
     return out
 
 
